@@ -107,11 +107,13 @@ func (a *GsfaWriter) fullBufferWriter() {
 	tmpBuf := make(linkedlog.KeyToOffsetAndSizeAndBlocktimeSlice, howManyBuffersToFlushConcurrently)
 
 	for {
+		vh("bgLoop")
 		// fmt.Println("numReadFromChan", numReadFromChan, "len(a.fullBufferWriterChan)", len(a.fullBufferWriterChan), "a.exiting.Load()", a.exiting.Load())
 		if a.exiting.Load() {
 			klog.Infof("remaining %d buffers to flush", len(a.fullBufferWriterChan))
 		}
 		if a.exiting.Load() && len(a.fullBufferWriterChan) == 0 {
+			vh("bgDone")
 			a.fullBufferWriterDone <- struct{}{}
 			return // exit
 		}
@@ -204,6 +206,7 @@ func (a *GsfaWriter) Push(
 			current = append(current, oas)
 			if len(current) >= itemsPerBatch {
 				a.popRank.Incr(publicKey, 1)
+				vh("send")
 				a.fullBufferWriterChan <- linkedlog.KeyToOffsetAndSizeAndBlocktime{
 					Key:    publicKey,
 					Values: clone(current),
@@ -233,8 +236,10 @@ func (a *GsfaWriter) Close() error {
 	if err := a.flushAccum(a.accum); err != nil {
 		return err
 	}
+	vh("setExit")
 	a.exiting.Store(true)
 	klog.Info("Closing linked log...")
+	vh("waitBg")
 	<-a.fullBufferWriterDone
 	klog.Info("Closing full buffer writer...")
 	a.cancel()
@@ -297,6 +302,9 @@ func (a *GsfaWriter) flushKVs(kvs ...linkedlog.KeyToOffsetAndSizeAndBlocktime) e
 	// if err != nil {
 	// 	return fmt.Errorf("error while flushing linked log cache: %w", err)
 	// }
+	if len(kvs[0].Values) > 0 {
+		vh("flush")
+	}
 	_, err := a.ll.Put(
 		func(pk solana.PublicKey) (indexes.OffsetAndSize, error) {
 			got, ok := a.offsets.Get(pk)
